@@ -32,3 +32,108 @@ package store
 //@   assert @s.boltStore.Close: [gate-held] gate && !released
 //@   ensures [returns-gate-err] gateErr != nil ==> result == gateErr
 //@   ensures [released-iff-acquired] released == gate
+//
+// ---- C16: read consistency levels ---------------------------------------------------------------
+//@ spec import lib/raft
+//@ spec import lib/std
+//@ spec import rqlite_db
+//@ spec import C16
+//
+// The pragma guard over a request: nil iff no statement is a breaking PRAGMA (C15); no heap effect.
+//@ func (*PragmaCheckRequest) Check
+//@   assigns nothing
+//@   loop 1 invariant [none-so-far] true
+//
+//@ func IsStaleRead
+//@   pure
+//@   ensures [stale] result == stale(leaderlastContact, lastFSMUpdateTime, lastAppendedAtTime, fsmIndex, commitIndex, freshness, strict)
+//
+// isStaleRead: a node that believes it is leader is never stale; otherwise the decision is the
+// pure rule applied to raft's last contact, the FSM times and indexes.
+//@ func (*Store) isStaleRead
+//@   requires [built] s != nil
+//@   assigns nothing
+//@   ghost var isLeader bool = false
+//@   ghost var lc int = 0
+//@   ghost var fu int = 0
+//@   ghost var aa int = 0
+//@   ghost var fi int = 0
+//@   ghost var ci int = 0
+//@   ghost update @s.raft.State: isLeader = (result == raft.Leader)
+//@   ghost update @s.raft.LastContact: lc = result
+//@   ghost update @s.fsmUpdateTime.Load: fu = result
+//@   ghost update @s.appendedAtTime.Load: aa = result
+//@   ghost update @s.fsmIdx.Load: fi = result
+//@   ghost update @s.raftTn.CommandCommitIndex: ci = result
+//@   ensures [leader-fresh] isLeader ==> !result
+//@   ensures [rule] !isLeader ==> result == stale(lc, fu, aa, fi, ci, freshness, strict)
+//
+// waitForLinearizableRead: nil is returned only after, in this order: the strong-read term equals
+// the read term; the node is leader and ready; the read index is the commit index taken BEFORE
+// leadership is re-verified with a quorum; the term is still the read term after that; and the
+// FSM has reached the read index (the only nil return is the receive on the channel obtained by
+// subscribing the read index).
+//@ func (*Store) waitForLinearizableRead
+//@   requires [built] s != nil && s.fsmTarget != nil
+//@   assigns *, chanClosed
+//@   ghost var step int = 0
+//@   ghost var ok bool = true
+//@   ghost var ri int = 0
+//@   assert @s.strongReadTerm.Load: [order-1] step == 0
+//@   ghost update @s.strongReadTerm.Load: ok = ok && (result == currReadTerm)
+//@   ghost update @s.strongReadTerm.Load: step = 1
+//@   assert @s.raft.State: [order-2] step == 1
+//@   ghost update @s.raft.State: ok = ok && (result == raft.Leader)
+//@   ghost update @s.raft.State: step = 2
+//@   assert @s.Ready: [order-3] step == 2
+//@   ghost update @s.Ready: ok = ok && result
+//@   ghost update @s.Ready: step = 3
+//@   assert @s.raft.CommitIndex: [order-4] step == 3
+//@   ghost update @s.raft.CommitIndex: ri = result
+//@   ghost update @s.raft.CommitIndex: step = 4
+//@   assert @s.VerifyLeader: [order-5-verify-after-readindex] step == 4
+//@   ghost update @s.VerifyLeader: ok = ok && (result == nil)
+//@   ghost update @s.VerifyLeader: step = 5
+//@   assert @s.raft.CurrentTerm: [order-6-term-after-verify] step == 5
+//@   ghost update @s.raft.CurrentTerm: ok = ok && (result == currReadTerm)
+//@   ghost update @s.raft.CurrentTerm: step = 6
+//@   assert @s.fsmTarget.Subscribe: [order-7-wait-readindex] step == 6 && arg0 == ri
+//@   ghost update @s.fsmTarget.Subscribe: step = 7
+//@   ensures [nil-means-all] result == nil ==> (step == 7 && ok)
+//
+//@ func (*Store) Query
+//@   requires [built] s != nil && s.fsmTarget != nil
+//@   assigns *, chanClosed
+//@   ghost var lv0 int = qr.Level
+//@   ghost var pragmaOK bool = false
+//@   ghost var voter bool = false
+//@   ghost var leaderObs bool = false
+//@   ghost var readyObs bool = false
+//@   ghost var linOK bool = false
+//@   ghost var staleObs bool = false
+//@   ghost var staleVal bool = false
+//@   ghost var applyCalled bool = false
+//@   ghost var applyOK bool = false
+//@   ghost var rt int = 0
+//@   ghost update @p.Check: pragmaOK = (result == nil)
+//@   ghost update @s.IsVoter: voter = result0
+//@   assert @s.raft.CurrentTerm: [term-before-apply] !applyCalled
+//@   ghost update @s.raft.CurrentTerm: rt = result
+//@   ghost update @s.waitForLinearizableRead: linOK = (result == nil)
+//@   ghost update @s.raft.State: leaderObs = (result == raft.Leader)
+//@   ghost update @s.Ready: readyObs = result
+//@   assert @s.raft.Apply: [strong-leader-ready] level == proto.ConsistencyLevel_STRONG && leaderObs && readyObs && pragmaOK
+//@   ghost update @s.raft.Apply: applyCalled = true
+//@   ghost update @af.Error: applyOK = (result == nil)
+//@   assert @s.strongReadTerm.Store: [strong-term] applyCalled && applyOK && arg0 == rt
+//@   assert @af.Response: [rows-after-apply] applyCalled && applyOK
+//@   ghost update @s.isStaleRead: staleObs = true
+//@   ghost update @s.isStaleRead: staleVal = result
+//@   assert @s.db.QueryWithContext: [pragma-first] pragmaOK
+//@   assert @s.db.QueryWithContext: [strong-via-log] level != proto.ConsistencyLevel_STRONG
+//@   assert @s.db.QueryWithContext: [weak-leader] level == proto.ConsistencyLevel_WEAK ==> leaderObs
+//@   assert @s.db.QueryWithContext: [none-fresh] level == proto.ConsistencyLevel_NONE ==> (staleObs && !staleVal)
+//@   assert @s.db.QueryWithContext: [linearizable-ok] level == proto.ConsistencyLevel_LINEARIZABLE ==> linOK
+//@   ensures [auto] (retErr == nil && lv0 == proto.ConsistencyLevel_AUTO) ==> level == ite(voter, proto.ConsistencyLevel_WEAK, proto.ConsistencyLevel_NONE)
+//@   ensures [level-kept] (retErr == nil && lv0 != proto.ConsistencyLevel_AUTO && lv0 != proto.ConsistencyLevel_LINEARIZABLE) ==> level == lv0
+//@   ensures [lin-or-strong] (retErr == nil && lv0 == proto.ConsistencyLevel_LINEARIZABLE) ==> (level == proto.ConsistencyLevel_LINEARIZABLE || level == proto.ConsistencyLevel_STRONG)
